@@ -148,30 +148,37 @@ def lastNameAfter (nOf : List Nat × List Nat → Name) : Option Name → List (
   | _, item :: rest => lastNameAfter nOf (some (nOf item)) rest
 
 theorem generateLoop_records (ttl ty : Nat) (items : List (List Nat × List Nat)) (r : PState)
-    (e : List Nat × List Nat → Entry) (nOf : List Nat × List Nat → Name)
+    (e : List Nat × List Nat → Option Entry) (nOf : List Nat × List Nat → Name)
     (h : ∀ item ∈ items, ∀ ln, genItem ttl ty item { r with lastName := ln } =
-      .ok (some (e item), { r with lastName := some (nOf item) }))
+      .ok (e item, { r with lastName := some (nOf item) }))
     (z : ZoneMap) :
     generateLoop ttl ty items r z =
-      (addAll r.effOrigin z (items.map e)).map fun z' =>
-        (false, { r with lastName := lastNameAfter nOf r.lastName items }, z') := by
+      (addAll r.effOrigin z (items.filterMap e)).map fun z' =>
+        ({ r with lastName := lastNameAfter nOf r.lastName items }, z') := by
   induction items generalizing r z with
   | nil => simp [generateLoop, addAll, Except.map, lastNameAfter, pure, Except.pure]
   | cons item rest ih =>
     have h0 := h item (by simp) r.lastName
     have hr : ({ r with lastName := r.lastName } : PState) = r := rfl
     rw [hr] at h0
-    simp only [generateLoop, bind, Except.bind, h0, List.map_cons, addAll, lastNameAfter]
     have heff : ({ r with lastName := some (nOf item) } : PState).effOrigin = r.effOrigin := rfl
-    rw [heff]
-    cases ha : addEntry z r.effOrigin (e item) with
-    | error err => rfl
-    | ok z1 =>
-      simp only
-      have h' : ∀ it ∈ rest, ∀ ln, genItem ttl ty it { ({ r with lastName := some (nOf item) } : PState) with lastName := ln } =
-          .ok (some (e it), { ({ r with lastName := some (nOf item) } : PState) with lastName := some (nOf it) }) :=
-        fun it hit ln => h it (by simp [hit]) ln
-      rw [ih { r with lastName := some (nOf item) } h' z1, heff]
+    have h' : ∀ it ∈ rest, ∀ ln, genItem ttl ty it { ({ r with lastName := some (nOf item) } : PState) with lastName := ln } =
+        .ok (e it, { ({ r with lastName := some (nOf item) } : PState) with lastName := some (nOf it) }) :=
+      fun it hit ln => h it (by simp [hit]) ln
+    cases he : e item with
+    | none =>
+      rw [he] at h0
+      simp only [generateLoop, bind, Except.bind, h0, List.filterMap_cons, he, lastNameAfter]
+      rw [ih { r with lastName := some (nOf item) } h' z, heff]
+    | some en =>
+      rw [he] at h0
+      simp only [generateLoop, bind, Except.bind, h0, List.filterMap_cons, he, addAll, lastNameAfter]
+      rw [heff]
+      cases ha : addEntry z r.effOrigin en with
+      | error err => rfl
+      | ok z1 =>
+        simp only
+        rw [ih { r with lastName := some (nOf item) } h' z1, heff]
 
 /-- a line that only holds the newline -/
 theorem lineStep_eol (r : PState) (rest : List Nat) (htok : r.tok = after 0 false (10 :: rest)) :
@@ -183,7 +190,7 @@ theorem lineStep_eol (r : PState) (rest : List Nat) (htok : r.tok = after 0 fals
 /-- **a `$GENERATE` line**: what it does to the zone is the fold of `txn.add` over the records of its indices, and the
 parser goes on after the line with the TTL remembered and the last owner generated -/
 theorem readLoop_generate (f : Nat) (r : PState) (z : ZoneMap) (rangeT lhs ttlT clsT tyT rhs rest : List Nat)
-    (a b st ttl ty : Nat) (lm rm : Modify) (e : List Nat × List Nat → Entry) (nOf : List Nat × List Nat → Name)
+    (a b st ttl ty : Nat) (lm rm : Modify) (e : List Nat × List Nat → Option Entry) (nOf : List Nat × List Nat → Name)
     (hco : r.currentOrigin.isNone = false)
     (htok : r.tok = after 0 false (s2l "$GENERATE" ++ genHeaderText rangeT lhs ttlT clsT tyT rhs (10 :: rest)))
     (k1 : TokOK rangeT) (k2 : TokOK lhs) (k3 : TokOK ttlT) (k4 : TokOK clsT) (k5 : TokOK tyT) (k6 : TokOK rhs)
@@ -192,10 +199,10 @@ theorem readLoop_generate (f : Nat) (r : PState) (z : ZoneMap) (rangeT lhs ttlT 
     (hlm : parseModify lhs = some lm) (hrm : parseModify rhs = some rm)
     (hitems : ∀ item ∈ generateExpansion a b st lhs rhs lm rm, ∀ ln,
       genItem ttl ty item { r with tok := after 0 false (10 :: rest), lastTTL := ttl, lastTTLKnown := true, lastName := ln } =
-        .ok (some (e item), { r with tok := after 0 false (10 :: rest), lastTTL := ttl, lastTTLKnown := true,
-                                     lastName := some (nOf item) })) :
+        .ok (e item, { r with tok := after 0 false (10 :: rest), lastTTL := ttl, lastTTLKnown := true,
+                              lastName := some (nOf item) })) :
     readLoop (f + 2) r z =
-      (addAll r.effOrigin z ((generateExpansion a b st lhs rhs lm rm).map e)).bind fun z' =>
+      (addAll r.effOrigin z ((generateExpansion a b st lhs rhs lm rm).filterMap e)).bind fun z' =>
         readLoop f { r with tok := after 0 false rest, lastTTL := ttl, lastTTLKnown := true,
                             lastName := lastNameAfter nOf r.lastName (generateExpansion a b st lhs rhs lm rm) } z' := by
   have hdir := lineStep_generate_dir r (genHeaderText rangeT lhs ttlT clsT tyT rhs (10 :: rest)) (sp_startsDelim _) htok
@@ -208,10 +215,10 @@ theorem readLoop_generate (f : Nat) (r : PState) (z : ZoneMap) (rangeT lhs ttlT 
       r.effOrigin := rfl
   rw [heff] at hloop
   simp only [readLoop, readStep, bind, Except.bind, hdir, generateLine, hparse, hloop]
-  cases hadd : addAll r.effOrigin z ((generateExpansion a b st lhs rhs lm rm).map e) with
+  cases hadd : addAll r.effOrigin z ((generateExpansion a b st lhs rhs lm rm).filterMap e) with
   | error err => rfl
   | ok z' =>
-    simp only [Except.map, Bool.false_eq_true, if_false, pure, Except.pure]
+    simp only [Except.map, pure, Except.pure]
     have heol := lineStep_eol
       { r with tok := after 0 false (10 :: rest), lastTTL := ttl, lastTTLKnown := true,
                lastName := lastNameAfter nOf r.lastName (generateExpansion a b st lhs rhs lm rm) } rest rfl
@@ -291,7 +298,7 @@ explicit record lines for the same records (same TTL written out, in index order
 and the same parser state, whatever follows in the file. -/
 theorem generate_eq_lines (f : Nat) (r : PState) (z : ZoneMap) (co zo : Name)
     (rangeT lhs ttlT clsT tyT rhs rest : List Nat) (a b st ttl ty : Nat) (lm rm : Modify)
-    (e : List Nat × List Nat → Entry) (nOf : List Nat × List Nat → Name) (ls : List GLine)
+    (e : List Nat × List Nat → Option Entry) (nOf : List Nat × List Nat → Name) (ls : List GLine)
     (hco : r.currentOrigin = some co) (hzo : r.zoneOrigin = some zo)
     (k1 : TokOK rangeT) (k2 : TokOK lhs) (k3 : TokOK ttlT) (k4 : TokOK clsT) (k5 : TokOK tyT) (k6 : TokOK rhs)
     (hrange : grangeFromText rangeT = .ok (a, b, st)) (httl : ttlOf ttlT = some ttl)
@@ -299,9 +306,9 @@ theorem generate_eq_lines (f : Nat) (r : PState) (z : ZoneMap) (co zo : Name)
     (hlm : parseModify lhs = some lm) (hrm : parseModify rhs = some rm)
     (hitems : ∀ item ∈ generateExpansion a b st lhs rhs lm rm, ∀ ln,
       genItem ttl ty item { r with tok := after 0 false (10 :: rest), lastTTL := ttl, lastTTLKnown := true, lastName := ln } =
-        .ok (some (e item), { r with tok := after 0 false (10 :: rest), lastTTL := ttl, lastTTLKnown := true,
-                                     lastName := some (nOf item) }))
-    (hls : ls.map GLine.entry = (generateExpansion a b st lhs rhs lm rm).map e) (hne : ls ≠ [])
+        .ok (e item, { r with tok := after 0 false (10 :: rest), lastTTL := ttl, lastTTLKnown := true,
+                              lastName := some (nOf item) }))
+    (hls : ls.map GLine.entry = (generateExpansion a b st lhs rhs lm rm).filterMap e) (hne : ls ≠ [])
     (hok : LinesOK co zo r.relativize r.gfix r.lastName none ls) (hu : UniformLines ttl ls)
     (hlast : lastN r.lastName ls = lastNameAfter nOf r.lastName (generateExpansion a b st lhs rhs lm rm)) :
     readLoop (f + 2)
